@@ -113,7 +113,11 @@ def make_data(S, units, pin='FuelModel'):
             ['fuel', 0, {'flowrate': _leaf(S, 'Assign[0].flowrate')}],
             ['fuel', 1, {'outlet_temp': _leaf(S, 'Assign[1].outlet_temp')}],
             [],
-            ['refl', 3, {'delta_temp': _leaf(S, 'Assign[3].delta_temp')}]]},
+            ['refl', 3, {'delta_temp': _leaf(S, 'Assign[3].delta_temp')}],
+            [],
+            # positions after an unassigned one (a partially filled outer ring) are converted like the others
+            ['fuel', 5, {'flowrate': _leaf(S, 'Assign[5].flowrate')}],
+            ['fuel', 6, {'outlet_temp': _leaf(S, 'Assign[6].outlet_temp')}]]},
         'Orificing': {'bulk_coolant_temp': _leaf(S, 'Orificing.bulk_coolant_temp'),
                       'pressure_drop_limit': _leaf(S, 'Orificing.pressure_drop_limit'),
                       'convergence_tol': _leaf(S, 'Orificing.convergence_tol')},
@@ -157,7 +161,7 @@ ASSIGNMENT_TEXT = """[Assignment]
     [[ByPosition]]
         fuel = 1, 1, 1, flowrate = 1.5
         fuel = 2, 1, 2, outlet_temp = 2.5
-        refl = 2, 3, 4, delta_temp = 3.5
+        refl = 2, 3, 3, delta_temp = 3.5
         fuel = 2, 5, 6, flowrate = 4.5
 """
 
